@@ -47,6 +47,15 @@ def gmOf (j : Json) : J.R Gm := do
     let X ← J.field j "geno" (J.mat J.rat)
     pure ⟨ploidy, n, m, false, [], X⟩
 
+/-- taxa indices as the caller wrote them (negative = relative to the end), normalised as `numpy.take` does -/
+def selOf (j : Json) (n : Nat) : J.R (Option (List Nat)) := do
+  match ← J.fieldOpt j "sel" (J.list J.int) with
+  | none => pure none
+  | some is =>
+    match normSel n is with
+    | some ix => pure (some ix)
+    | none => J.fail "sel: index out of range"
+
 def estimatorOf (j : Json) : J.R Estimator := do
   let method ← J.field j "method" J.str
   match Estimator.ofString? method with
@@ -90,7 +99,7 @@ def opCmat : J.Op := fun j => do
   let g ← gmOf j
   let pa ← argOf j "p"
   let wa ← argOf j "w"
-  let sel ← J.fieldOpt j "sel" (J.list J.nat)
+  let sel ← selOf j g.n
   let via ← J.fieldD j "via" J.str "class"
   match runMethod e g pa wa via with
   | .error err => pure (J.obj [("err", J.ofStr err.tag)])
@@ -177,7 +186,7 @@ def opSpecCmat : J.Op := fun j => do
     kin := ← J.field o "kin" (J.mat J.rat), acc := ← J.fieldD o "acc" (J.list (J.list J.rat)) [],
     lab := ⟨← optStrs o "taxa", ← optInts o "taxa_grp", ← metaOf o "meta"⟩ }
   -- permutation / sub-selection of taxa (only sent for estimators that do not re-estimate p)
-  let sel ← match ← J.fieldOpt j "sel" (J.list J.nat) with
+  let sel ← match ← selOf j g.n with
     | none => pure none
     | some is => do
       let sa ← J.field o "sel_a" pure       -- from_gmat(gmat.select_taxa(is))
